@@ -111,6 +111,22 @@ let opts_of (s : string) : M.options =
 
 let b01 b = if b then "1" else "0"
 
+let string_of_fmt = function
+  | M.FContext -> "context" | M.FUnified -> "unified" | M.FGit -> "git" | M.FEd -> "ed" | M.FNormal -> "normal" | M.FUnknown -> "unknown"
+let string_of_oper = function
+  | M.OpChange -> "change" | M.OpRename -> "rename" | M.OpCopy -> "copy" | M.OpDelete -> "delete" | M.OpAdd -> "add" | M.OpBinary -> "binary"
+let enc_line (l : M.line) = hex l.M.txt ^ ":" ^ String.make 1 (char_of_nl l.M.nl)
+let enc_hunk (h : M.hunk) =
+  Printf.sprintf "%s/%s/%s/%s/%s" (dec_of_z h.M.oldr.M.rstart) (dec_of_z h.M.oldr.M.rcount)
+    (dec_of_z h.M.newr.M.rstart) (dec_of_z h.M.newr.M.rcount)
+    (if h.M.body = [] then "-" else String.concat "," (List.map (fun p ->
+       (match p.M.pop with M.Ctx -> "_" | M.Add -> "+" | M.Del -> "-") ^ enc_line p.M.pl) h.M.body))
+let enc_patch (p : M.patch) =
+  Printf.sprintf "PATCH fmt=%s op=%s old=%s new=%s index=%s prereq=%s ot=%s nt=%s om=%d nm=%d hunks=%s"
+    (string_of_fmt p.M.pfmt) (string_of_oper p.M.poper) (hex p.M.old_path) (hex p.M.new_path) (hex p.M.index_path)
+    (hex p.M.prereq) (hex p.M.old_time) (hex p.M.new_time) (int_of_n p.M.old_mode) (int_of_n p.M.new_mode)
+    (if p.M.hunks = [] then "-" else String.concat ";" (List.map enc_hunk p.M.hunks))
+
 (* ---------- commands ---------- *)
 let spec_locate ws off mf lo ls h obs =
   let f = lines_of ls and hk = hunk_of h in
@@ -139,6 +155,26 @@ let run_case (toks : string list) : string =
     let j = M.spec_apply o.M.ignore_whitespace o.M.max_fuzz o.M.newline_output (lines_of ls) hk
               (List.map ov_of (split ',' ovs)) (unhex outb) (nat_of_int (int_of_string failed)) (unhex rejb) in
     Printf.sprintf "SPEC C02=%s C03=%s C04=%s" (b01 j.M.j_c02) (b01 j.M.j_c03) (b01 j.M.j_c04)
+  | ["PARSE1"; fmt; strip; b] ->
+    (match M.parse_patch (unhex b) (fmt_of fmt) (z_of_dec strip) with
+     | M.Throw _ -> "THROW" | M.Ok p -> enc_patch p)
+  | ["PARSEALL"; fmt; strip; b] ->
+    (match M.parse_all (unhex b) (fmt_of fmt) (z_of_dec strip) with
+     | M.Throw _ -> "THROW"
+     | M.Ok ps -> if ps = [] then "NONE" else String.concat " | " (List.map enc_patch ps))
+  | ["STRIP"; n; p] -> "BYTES " ^ hex (M.strip_path (unhex p) (z_of_dec n))
+  | ["UNQUOTE"; b] ->
+    (match M.parse_quoted_string (unhex b) with M.Throw _ -> "THROW" | M.Ok (o, r) -> "BYTES " ^ hex o ^ " " ^ hex r)
+  | ["FILELINE"; n; b] ->
+    (match M.parse_file_line (z_of_dec n) (unhex b) with
+     | M.Throw _ -> "THROW"
+     | M.Ok (p, ts) -> "NAME " ^ hex p ^ " " ^ (match ts with None -> "KEEP" | Some t -> "TS=" ^ hex t))
+  | ["URANGE"; b] ->
+    let (ok, h) = M.parse_unified_range M.empty_hunk (unhex b) in
+    if ok then "RANGE " ^ enc_hunk h else "NORANGE"
+  | ["NRANGE"; b] ->
+    let (ok, h) = M.parse_normal_range M.empty_hunk (unhex b) in
+    if ok then "RANGE " ^ enc_hunk h else "NORANGE"
   | ["NORMWS"; a] -> "BYTES " ^ hex (M.norm_ws (unhex a))
   | ["WSMATCH"; a; b] -> b01 (M.matches_ignoring_whitespace (unhex a) (unhex b))
   | ["MATCH"; ws; a; b] -> b01 (M.matches (line_of a) (line_of b) (bool_of ws))
